@@ -44,3 +44,21 @@ func LoadConfig(doc []byte) (cfg *configv1.Config, err error, panicked any, stac
 	}
 	return &l.Config, nil, nil, ""
 }
+
+// LateConfig mimics cmd/main.go, where every component (log system, key provider, session-store factory, filter,
+// servers, secret controller) is constructed around the still EMPTY configuration object of the config file and the
+// file is only loaded when the run group starts: it returns an empty configuration to build components around and a
+// function that fills it in from the complete one. The chains are shared, not copied, so pointers into the complete
+// configuration stay valid.
+func LateConfig(complete *configv1.Config) (shell *configv1.Config, fill func()) {
+	shell = &configv1.Config{}
+	return shell, func() {
+		shell.Chains = complete.Chains
+		shell.TriggerRules = complete.TriggerRules
+		shell.AllowUnmatchedRequests = complete.AllowUnmatchedRequests
+		shell.DefaultOidcConfig = complete.DefaultOidcConfig
+		shell.ListenAddress, shell.ListenPort = complete.ListenAddress, complete.ListenPort
+		shell.LogLevel, shell.Threads = complete.LogLevel, complete.Threads
+		shell.HealthListenAddress, shell.HealthListenPort, shell.HealthListenPath = complete.HealthListenAddress, complete.HealthListenPort, complete.HealthListenPath
+	}
+}
